@@ -13,12 +13,14 @@ import struct
 from fractions import Fraction
 
 import harness_build
-from checks import exprun, runner, symrun
+from checks import exprun, runner, saferun, symrun
 
 LEVEL = "proof"
 INTS = ["i8", "i16", "i32", "i64", "u8", "u16", "u32", "u64"]
 FLOATS = ["f32", "f64"]
 FMT = {"f32": (24, 128), "f64": (53, 1024)}          # (prec, emax); emin = 3 - emax - prec
+CONST_DIMS = [0, 1, 3, 8, 17, 33, 65, 130]            # the DIMS the harness glue instantiates (gen_glue.CONST_DIMS)
+CONST_DIMS_QUICK = [0, 1, 3, 17, 65]
 
 INT_CLASSES = ("zero_both", "zero_a", "zero_b", "wrap_zero_both", "wrap_zero_one", "isqrt0", "neg_product",
                "negatives", "identical", "antiparallel", "random", "boundary")
@@ -433,7 +435,19 @@ def run(ctx):
     exprun.run_property(ctx, "C:cosine", "C06", ops=["generic_cosine"],
                         classes=("random", "boundary", "small", "special") if thorough else ("small", "boundary"),
                         lens_fn=lens_fn, places=places, seed_tag=6)
+    # the const-dimension form of every cosine export (xconst::<D>), same oracles
+    exprun.run_property(ctx, "C:cosine-xconst", "C06", ops=["generic_cosine"], classes=("small", "random"),
+                        lens_fn=lambda L: CONST_DIMS if thorough else CONST_DIMS_QUICK, places=("R",), forms=("c",),
+                        const_dims=CONST_DIMS, seed_tag=66)
     # vector-level classes reaching every branch, and the float geometry classes with their oracles
     for config in ("stable", "nightly") + (("debug",) if thorough else ()):
         run_ints(ctx, facts, config, lens_fn, INT_CLASSES, places)
         run_floats(ctx, facts, config, lens_fn, FLOAT_CLASSES, places)
+    # the safe API (cfavml::*_xany_cosine / *_xconst_cosine) under dispatch masks: every back end the host can reach
+    facts = ctx.translate(steps=("tables", "dispatch"))
+    entries = [(i, s_) for i, s_ in enumerate(facts.get("safe_entries", [])) if "_cosine" in s_["any"]]
+    lens = [0, 3, 17, 65] if not thorough else [0, 1, 3, 8, 17, 33, 65, 130]
+    for config, masks in ((("stable", [0, 2, 6]), ("nightly", [0])) if not thorough else
+                          (("stable", [0, 2, 4, 6]), ("debug", [0, 6]), ("nightly", [0, 1, 3, 7]))):
+        cases, meta = saferun.gen_safe_cases(ctx, facts, config, entries, lens, [(0, 0, 0, 0)], masks, seed_tag=67, cls="small")
+        saferun.compare_safe(ctx, config, cases, meta, "D:safe-cosine")
